@@ -50,7 +50,9 @@ Proof.
 Qed.
 
 Lemma cycle_event_good o i sch e :
-  In e (o_events (cycle o i sch)) -> ev_good o (st_p1 (run_stages o i (sst_of sch))) e.
+  In e (o_events (cycle o i sch)) ->
+  let S := run_stages o i (sst_of sch) in
+  ev_good o (global_status (i_explore i) (st_p0 S)) (not_assignable (i_active i) (st_p2 S)) (st_p1 S) e.
 Proof.
   intros H. apply cycle_events_sub in H. cbn zeta in H.
   pose proof (stages_events_good o i (sst_of sch)) as G. cbn zeta in G.
